@@ -37,7 +37,10 @@ where
     let resolved_addr = listener.local_addr()?;
     let (stop_channel, stop_callback) = futures::channel::oneshot::channel::<()>();
     let task_handle = async_rt::task::spawn(async move {
-        let mut stop_callback = stop_callback.fuse();
+        // Shared with every handshake task spawned below: a connection that is
+        // still in its handshake must not outlive the listener (and the socket).
+        let stopped = stop_callback.shared();
+        let mut stop_callback = stopped.clone().fuse();
         loop {
             select! {
                 incoming = listener.accept().fuse() => {
@@ -54,7 +57,11 @@ where
                             )
                         })
                         .map_err(|err| err.into());
-                    async_rt::task::spawn(cback(maybe_accepted));
+                    let handshake = Box::pin(cback(maybe_accepted));
+                    let stopped = stopped.clone();
+                    async_rt::task::spawn(async move {
+                        let _ = futures::future::select(handshake, stopped).await;
+                    });
                 }
                 _ = stop_callback => {
                     break
